@@ -17,9 +17,9 @@ func (c18) Technique() string {
 }
 func (c18) Runs(tier string) int {
 	if tier == "thorough" {
-		return 2000000
+		return 6000000
 	}
-	return 150000
+	return 400000
 }
 func (c18) Rule() string {
 	return "history of 1-25 calls on a Stack and a Condition: set/clear/toggle of the 8 options (4 on Conditions, deprecated aliases included), SetFIFO, ID, category, delimiter, symbol, encapsulation pairs (duplicates included), auxiliary map, log-level set/unset by name, constant and raw integer, mixed with Push/Pop; non-trivial = at least 4 distinct options/settings were changed; distinct = hash(call sequence with resulting option sets)"
